@@ -14,6 +14,8 @@ If a generated proof no longer checks (conv.rs changed) the check searches a con
 (harness: real function vs i128 oracle, in all three build profiles)."""
 import json, os, re, sys, shutil, time
 import framework as F
+import conv_arms
+import cov_evidence
 
 sys.path.insert(0, os.path.join(F.VERIF, "translate"))
 import conv2coq as T
@@ -21,7 +23,7 @@ import conv2coq as T
 PROP = "C01"
 META = dict(
     technique="Coq proof over a model TRANSLATED from conv.rs on every run (one tactic closes all 132 dispatched conversions against the rescaling specification; consequences proved from the specification) + coqc-evaluated model vs crate correspondence in debug and release + i128 specification oracle sweeps",
-    text="translate/conv2coq.py parses every conversions!/impl_from_sample! table of dasp_sample/src/conv.rs (and the format facts of types.rs / lib.rs) into shallow Gallina with explicit machine-integer semantics (checked arithmetic = debug build, wrapping = release, `as` and `<<` wrap, `>>` floors); Coq 8.16.1 proves, for all 132 ordered pairs and every in-range source value, that what Sample::to_sample dispatches to returns floor(amplitude * 2^(bits d - bits s)) re-offset, without overflow panic, in both build profiles; in-range, monotonicity, equilibrium, MIN/MAX, lossless widening and the via-intermediate law are proved from that formula for all formats. The translator is validated by running the generated model inside coqc against the real crate (public trait dispatch, both profiles) and the crate against an independent i128 oracle of the formula.",
+    text="translate/conv2coq.py parses every conversions!/impl_from_sample! table of dasp_sample/src/conv.rs (and the format facts of types.rs / lib.rs) into shallow Gallina with explicit machine-integer semantics (checked arithmetic = debug build, wrapping = release, `as` and `<<` wrap, `>>` floors); Coq 8.16.1 proves, for all 132 ordered pairs and every in-range source value, that what Sample::to_sample dispatches to returns floor(amplitude * 2^(bits d - bits s)) re-offset, without overflow panic, in both build profiles; in-range, monotonicity, equilibrium, MIN/MAX, lossless widening and the via-intermediate law are proved from that formula for all formats. The 12 same-format conversions (the blanket identity impl, which no table row may overlap) return the value itself (c01_same_format). The translator is validated by running the generated model inside coqc against the real crate (every public entry point -- Sample::to_sample / from_sample, ToSample::to_sample_, FromSample::from_sample_, the same through a Duplex<_> bound only, and the module function conv::<src>::to_<dst> -- must return the same value; debug, release and relchk profiles) and the crate against an independent i128 oracle of the formula.",
     note="Trusted: Coq kernel; translate/conv2coq.py (validated only by the correspondence); Sample/Rint.v as the meaning of Rust's integer operators; harness + generators. Axioms: none. The statement's 'each extreme to the matching extreme' is false for MAX under widening (127i8 -> 32512i16 by the rescaling formula itself); proved instead: MAX -> MAX when narrowing, MAX -> MAX - (2^k - 1) when widening by k bits.",
     design="6/C01")
 HEADER = "From Dasp Require Import Sample.ConvRun.\nRequire Import Uint63."
@@ -32,6 +34,11 @@ CODE = {f: i for i, f in enumerate(FORMATS)}
 SIGNED = {f: f[0] in "iI" for f in FORMATS}
 REP = {"I24": "i32", "U24": "i32", "I48": "i64", "U48": "i64"}
 PAIRS = [(s, d) for s in FORMATS for d in FORMATS if s != d]
+# the diagonal: `x.to_sample::<Self>()` dispatches to the blanket `impl<S> FromSample<S> for S` (identity); it is what
+# add_amp / to_signed_sample of every signed format run through, generic code converts "to the same format" whenever its
+# two type parameters coincide, and the rescaling formula gives z itself there (c01_same_format)
+IDENT = [(s, s) for s in FORMATS]
+ALL_PAIRS = PAIRS + IDENT
 TEST_CONV = os.environ.get("DASP_CONV_RS")  # TESTING ONLY: pretend /repo's conv.rs were this file
 TEST_TYPES = os.environ.get("DASP_TYPES_RS")  # TESTING ONLY: pretend /repo's types.rs were this file
 TEST_MODE = bool(TEST_CONV or TEST_TYPES)
@@ -138,13 +145,13 @@ def gen_items(rng, tier):
     for mode in MODES:  # the crate's own constants and validity check against the generated format table
         for f in FORMATS:
             items.append(dict(kind="consts", mode=mode, s=f, d=f, vals=[], line=f"consts {CODE[f]} 0"))
-    for (s, d) in PAIRS:
+    for (s, d) in ALL_PAIRS:
         r = rng.fork(f"{s}>{d}")
         if BITS[s] == 8:
             vals = list(range(fmin(s), fmax(s) + 1))
             kinds = [("exhaustive", vals)]
         else:
-            kinds = [("boundary", boundary(s)), ("random", randoms(r, s, n_rand))]
+            kinds = [("boundary", boundary(s)), ("random", randoms(r, s, n_rand if s != d else n_rand // 5))]
             if BITS[s] == 16 and tier == "thorough":
                 kinds = [("boundary", boundary(s))]  # every value is covered by the digest sweep below
         mal = malformed(r, s, n_mal)
@@ -207,6 +214,8 @@ def correspond(bins, items, tag):
 
 
 def fn_name(S, s, d):
+    if s == d:
+        return "conv.rs `impl<S> FromSample<S> for S` (the blanket identity impl)"
     if S is None:
         return f"conv::{s.lower()}::to_{d.lower()}"
     m, fn = S.dispatch[(s, d)]
@@ -316,7 +325,7 @@ def oracle_lines(rng, tier, mode, for_search=False):
     """(line, pair, count) triples for profile `mode`"""
     out = []
     quick = tier == "quick"
-    for (s, d) in PAIRS:
+    for (s, d) in ALL_PAIRS:
         b = BITS[s]
         c = f"{CODE[s]} {CODE[d]}"
         lo = fmin(s)
@@ -478,6 +487,7 @@ def scratch_harness():
     F.ensure_dir(os.path.join(h, "src", "bin"))
     shutil.copy(os.path.join(F.HARNESS, "src", "lib.rs"), os.path.join(h, "src", "lib.rs"))
     shutil.copy(os.path.join(F.HARNESS, "src", "bin", "c01.rs"), os.path.join(h, "src", "bin", "c01.rs"))
+    shutil.copy(os.path.join(F.HARNESS, "src", "direct.rs"), os.path.join(h, "src", "direct.rs"))
     F.write_if_changed(os.path.join(h, "Cargo.toml"),
                        '[package]\nname = "dasp_verif_harness"\nversion = "0.0.0"\nedition = "2018"\npublish = false\n\n[workspace]\n\n'
                        f'[dependencies]\ndasp_sample = {{ path = "{ds}" }}\n\n'
@@ -547,7 +557,7 @@ def model_search(S, only_pairs=None):
     if not ok:
         return None, "model does not build: " + log[-800:]
     exprs = []
-    pairs = only_pairs or PAIRS
+    pairs = only_pairs or ALL_PAIRS
     for (s, d) in pairs:
         vals = boundary(s) if BITS[s] > 8 else list(range(fmin(s), fmax(s) + 1))
         exprs.append(f"(({CODE[s]}, {CODE[d]}), spec_bad 0 {CODE[s]} {CODE[d]} [" + "; ".join(zt(v) for v in vals) + "])")
@@ -586,7 +596,7 @@ def search_failing_input(rep, S, bins, rng, tier, why):
             for f in uniq[:4]:
                 f = minimise_failure(bins[mode], f)
                 s, d = f["pair"]
-                got = {0: f["got"], 7: f"to_sample/from_sample disagree: {f['got']}", 8: f"panic kind {f['got']}",
+                got = {0: f["got"], 7: f"entry points disagree (Sample::to_sample vs Sample::from_sample / the module function conv::<src>::to_<dst>; replay the harness_line for all seven): {f['got']}", 8: f"panic kind {f['got']}",
                        6: f"{f['got']} returned, but {d}::new({f['got']}) is not Some({f['got']}): not a valid value of the target format by the crate's own validity check"}[f["tag"]]
                 rep.violation(f"{s}_to_{d}_{PROFILES[mode][0]}", dict(
                     kind=("conversion result is not a valid in-range value of the target format by the crate's own validity check (T::new)" if f["tag"] == 6
@@ -613,7 +623,7 @@ def search_failing_input(rep, S, bins, rng, tier, why):
             for f in uniq[:4]:
                 f = minimise_failure(npath, f)
                 s, d = f["pair"]
-                got = {0: f["got"], 7: f"to_sample/from_sample disagree: {f['got']}", 8: f"panic kind {f['got']}"}[f["tag"]]
+                got = {0: f["got"], 7: f"entry points disagree (Sample::to_sample vs Sample::from_sample / the module function conv::<src>::to_<dst>; replay the harness_line for all seven): {f['got']}", 8: f"panic kind {f['got']}"}[f["tag"]]
                 rep.violation(f"{s}_to_{d}_nostd", dict(
                     kind="conversion does not produce the exact power-of-two rescaling when dasp_sample is built without its std feature", why=why,
                     function=fn_name(S, s, d) if S is not None else f"conv::{s}::to_{d}", call=f"<{s} as Sample>::to_sample::<{d}>()",
@@ -703,7 +713,7 @@ def main(rep, tier, seed):
             obs, bad, errors = correspond(bins, items, "c01")
             for name, msg in errors:
                 rep.violation("correspondence_error_" + name.replace("/", "_"), {"kind": "correspondence could not be evaluated", "where": name, "log": msg}, no_input=True)
-            collect_stats(stats, items, obs)
+            collect_stats(stats, items, obs, S)
             stats["bad"] = len(bad)
             for idx in bad[:3]:
                 it = items[idx]
@@ -758,9 +768,17 @@ def main(rep, tier, seed):
     return finish(rep, info, tier, stats, times)
 
 
-def collect_stats(stats, items, obs):
+def collect_stats(stats, items, obs, S=None):
     seen_nt = set()
     hist = stats["hist"]
+    # which arm of every `if` of the conversions! bodies the values fed to THAT function take (llvm coverage has no
+    # regions there, see lib/conv_arms.py)
+    if S is not None:
+        fed = {}
+        for it, o in zip(items, obs):
+            if o is not None and it["kind"] not in ("consts", "range") and it["s"] != it["d"]:
+                fed.setdefault(S.dispatch[(it["s"], it["d"])], set()).update(it["vals"])
+        stats["arms"] = conv_arms.arm_coverage(S, fed)
     for it, o in zip(items, obs):
         if o is None:
             continue
@@ -769,7 +787,7 @@ def collect_stats(stats, items, obs):
         n = it["n"] if it["kind"] == "range" else 1 if it["kind"] == "consts" else len(it["vals"])
         stats["values"] += n
         for key in (f"kind:{it['kind']}", f"profile:{PROFILES[it['mode']][0]}",
-                    f"src_bits:{BITS[s]}", "dir:" + ("narrow" if BITS[d] < BITS[s] else "widen" if BITS[d] > BITS[s] else "same-width"),
+                    f"src_bits:{BITS[s]}", "dir:" + ("narrow" if BITS[d] < BITS[s] else "widen" if BITS[d] > BITS[s] else "same-format (blanket identity impl)" if s == d else "same-width"),
                     "sign:" + ("s" if SIGNED[s] else "u") + ">" + ("s" if SIGNED[d] else "u")):
             hist[key] = hist.get(key, 0) + n
         if it["kind"] != "range":
@@ -788,7 +806,7 @@ def collect_stats(stats, items, obs):
 
 def finish(rep, info, tier, stats, times):
     th = info.get("theorems", [])
-    n_expected = 19
+    n_expected = 20
     cov = {
         "obligations": max(n_expected, len(th)), "discharged": len(th) if info.get("coq_ok") else 0,
         "checker_cmd": "translate/conv2coq.py; make -f Makefile.coq props/C01.vo (coqc 8.16.1, full .vo; 132 generated per-pair lemmas in gen/ConvProofs_*.v) + Print Assumptions audit",
@@ -802,8 +820,12 @@ def finish(rep, info, tier, stats, times):
         "evaluations": stats.get("values", 0) + stats.get("oracle", 0),
         "model_vs_crate_evaluations": stats.get("values", 0), "crate_vs_i128_oracle_evaluations": stats.get("oracle", 0),
         "distinct_nontrivial": stats.get("nontrivial", 0),
-        "rule": "model-vs-crate: all 132 Sample::to_sample pairs x {debug, release, relchk = optimised with overflow checks on and debug assertions off (8-bit exhaustive, boundary and out-of-range sets; thorough: + a third of the random set; compared with the Checked model)}; every value of 8-bit sources, boundary-structured values (MIN, MIN+1, +-2^k+-1 on value and amplitude, -1, 0, 1, MAX-1, MAX, every k) plus random values of wider sources (700 per pair quick / 6000 thorough; thorough: every value of 16-bit sources by digest), out-of-range representation values of I24/U24/I48/U48; every result of a 24/48-bit target must satisfy T::new(r) == Some(r) (the crate's own validity check, observed as a flag); the crate's MIN/MAX/EQUILIBRIUM constants and T::new at the range ends against the generated format table; crate-vs-oracle: exhaustive <=16-bit (quick), <=24-bit and 32-bit in release (thorough), random + strided sweeps otherwise. non-trivial = distinct (pair, value) in the model-vs-crate set with a narrowing conversion of a negative amplitude that is not a multiple of the step (floor and truncation differ)",
-        "samples": stats.get("samples", []), "input_distribution": stats.get("hist", {}), "disagreements": stats.get("bad", 0),
+        "rule": "entry points: every value goes through Sample::to_sample, Sample::from_sample, ToSample::to_sample_, FromSample::from_sample_, both of those again with only a `Duplex<_>` bound in scope, and the module function conv::<src>::to_<dst> (harness/src/direct.rs); the observation is `0 r` only if all seven agree (the sweeps against the i128 oracle use to_sample, from_sample and the module function). model-vs-crate: all 132 Sample::to_sample pairs + the 12 same-format conversions (blanket identity impl; model: Ok z, c01_same_format) x {debug, release, relchk = optimised with overflow checks on and debug assertions off (8-bit exhaustive, boundary and out-of-range sets; thorough: + a third of the random set; compared with the Checked model)}; every value of 8-bit sources, boundary-structured values (MIN, MIN+1, +-2^k+-1 on value and amplitude, -1, 0, 1, MAX-1, MAX, every k) plus random values of wider sources (700 per pair quick / 6000 thorough; thorough: every value of 16-bit sources by digest), out-of-range representation values of I24/U24/I48/U48; every result of a 24/48-bit target must satisfy T::new(r) == Some(r) (the crate's own validity check, observed as a flag); the crate's MIN/MAX/EQUILIBRIUM constants and T::new at the range ends against the generated format table; crate-vs-oracle: exhaustive <=16-bit (quick), <=24-bit and 32-bit in release (thorough), random + strided sweeps otherwise. non-trivial = distinct (pair, value) in the model-vs-crate set with a narrowing conversion of a negative amplitude that is not a multiple of the step (floor and truncation differ)",
+        "samples": stats.get("samples", []),
+        "input_distribution": dict(stats.get("hist", {}),
+                                   conv_rs_if_arms=dict(stats.get("arms", {}), how="counted from the parsed source (lib/conv_arms.py): for every `if` of a conversions! body, how many of the values this run fed to that very function took each arm; llvm coverage has no regions inside the macro `$body` expressions"),
+                                   source_regions_never_entered=cov_evidence.regions(PROP, "The bodies of the conversions! functions carry no llvm regions (rustc drops macro-argument spans): their branches are counted in conv_rs_if_arms on every run.")),
+        "disagreements": stats.get("bad", 0),
         "timing": dict(times, coq_s=info.get("coq_s")),
         "float_translation_validation": stats.get("float", {}),
         "explanation": "theorems: what Sample::to_sample dispatches to (translated from conv.rs on this run) equals the rescaling formula for all 132 pairs and every in-range input, no overflow panic in debug, same value in release; consequences from the formula for all formats; tie: generated model run by coqc against the crate through the public trait dispatch in both profiles, plus the crate against an independent i128 oracle",
